@@ -621,6 +621,9 @@ func runC12(c *CaseCtx) (res CaseResult) {
 	if c.Idx%35 == 3 {
 		return runC12FailingRedefined(c, r)
 	}
+	if c.Idx%35 == 17 {
+		return runC12ConvertTypes(c, r)
+	}
 	s, fam := stableScenario(r)
 	noBuilt := func(f *FuncSpec) {
 		if f.InForm == FormBuilt {
